@@ -1,6 +1,7 @@
 package dbt
 
 import (
+	"fmt"
 	"context"
 	"time"
 
@@ -102,7 +103,12 @@ func Retain(trace *util.NDJSON) int {
 	if err != nil {
 		util.Die("open: %v", err)
 	}
-	defer engine.Close()
+	wedged := false // a panic inside a commit may leave the engine's locks held: do not wait for Close then
+	defer func() {
+		if !wedged {
+			engine.Close()
+		}
+	}()
 	coll := client.Database("d").Collection("r")
 	tsOf := func() []primitive.Timestamp {
 		var out []primitive.Timestamp
@@ -119,11 +125,19 @@ func Retain(trace *util.NDJSON) int {
 		}
 		before := tsOf()
 		var werr error
-		if i%3 == 2 {
-			_, werr = coll.UpdateMany(ctx, bson.D{}, bson.D{{Key: "$inc", Value: bson.D{{Key: "n", Value: int32(1)}}}}) // several events in one commit
-		} else {
-			_, werr = coll.InsertOne(ctx, bson.D{{Key: "_id", Value: int32(i)}})
-		}
+		func() {
+			defer func() {
+				if r := recover(); r != nil {
+					werr = fmt.Errorf("panic: %v", r)
+					wedged = true
+				}
+			}()
+			if i%3 == 2 {
+				_, werr = coll.UpdateMany(ctx, bson.D{}, bson.D{{Key: "$inc", Value: bson.D{{Key: "n", Value: int32(1)}}}}) // several events in one commit
+			} else {
+				_, werr = coll.InsertOne(ctx, bson.D{{Key: "_id", Value: int32(i)}})
+			}
+		}()
 		if werr != nil {
 			// a valid write is refused while the engine trims its change log: recorded as a removal that is not a prefix
 			trace.Write(V{"fn": "clean", "len": len(before) + 1, "ages": []interface{}{}, "minSize": 2, "maxSize": 4, "minAge": 1, "maxAge": 3600,
